@@ -12,14 +12,14 @@ import Apko.Model.Resolver
 namespace Apko.TransResolver
 open Apko Apko.Resolver
 
-/-- a `for … range` loop whose body is "`if p x { return g x }`" is `find?` followed by `g` -/
+-- a `for … range` loop whose body is "`if p x { return g x }`" is `find?` followed by `g`
 theorem findSome_guard {α β} (p : α → Prop) [DecidablePred p] (g : α → β) (l : List α) :
     l.findSome? (fun x => if p x then some (g x) else none) = (l.find? (fun x => decide (p x))).map g := by
   induction l with
   | nil => rfl
   | cons x xs ih => by_cases h : p x <;> simp [h, ih]
 
-/-- T `trans_getDepVersionForName`: Go's `getDepVersionForName`, translated, is the model's. -/
+-- T `trans_getDepVersionForName`: Go's `getDepVersionForName`, translated, is the model's.
 theorem trans_getDepVersionForName (pkg : Pkg) (name : Text) :
     Generated.Trans.getDepVersionForName pkg name = getDepVersionForName pkg name := by
   unfold Generated.Trans.getDepVersionForName getDepVersionForName
@@ -36,7 +36,7 @@ theorem trans_getDepVersionForName (pkg : Pkg) (name : Text) :
     simp only [List.findSome?_cons, List.find?_cons]
     by_cases hx : (parseConstraint x).name = name <;> simp_all
 
-/-- the two version steps of the comparator, as Go's `switch` renders them -/
+-- the two version steps of the comparator, as Go's `switch` renders them
 theorem verStep_int (x y : Text) (k : Int) :
     (if ((pv x).isNone && !(pv y).isNone) then (1 : Int)
      else if (!(pv x).isNone && (pv y).isNone) then -1
@@ -57,9 +57,9 @@ theorem cmpCompare_eq (a b : Text) : Trans.cmpCompare a b = Trans.ordInt (cmpTex
   unfold Trans.cmpCompare cmpText
   by_cases h1 : a < b <;> by_cases h2 : b < a <;> simp [h1, h2, Trans.ordInt]
 
-/-- T `trans_comparePackages`: the closure `comparePackages` returns, translated with the captured
-variables as parameters, is the model's comparator (the repaired one, `bothBad = .eq`) read as Go's
-`-1 / 0 / +1` — for `compare = nil`, which is what every call site passes (`tie_comparatorCallSites`). -/
+-- T `trans_comparePackages`: the closure `comparePackages` returns, translated with the captured
+-- variables as parameters, is the model's comparator (the repaired one, `bothBad = .eq`) read as Go's
+-- `-1 / 0 / +1` — for `compare = nil`, which is what every call site passes (`tie_comparatorCallSites`).
 theorem trans_comparePackages (name pin : Text) (existing : List (Text × Pkg)) (origins : List Text)
     (a b : Pkg) :
     Generated.Trans.comparePackages none name existing origins pin a b =
@@ -68,10 +68,10 @@ theorem trans_comparePackages (name pin : Text) (existing : List (Text × Pkg)) 
   simp only [trans_getDepVersionForName, Option.isSome_none, Bool.false_eq_true, ↓reduceIte, verStep_int,
     cmpCompare_eq]
   cases he1 : lookupT existing a.name <;> cases he2 : lookupT existing b.name <;>
-    simp <;> (repeat' split) <;> simp_all [Trans.ordInt]
+    simp <;> (repeat' split) <;> simp_all [Trans.ordInt] <;> omega
 
-/-- T `trans_conflictingVersion`: Go's `conflictingVersion`, translated (`none` = the `panic` at its end),
-is the model's. -/
+-- T `trans_conflictingVersion`: Go's `conflictingVersion`, translated (`none` = the `panic` at its end),
+-- is the model's.
 theorem trans_conflictingVersion (con : Constraint) (conflict : Pkg) :
     Generated.Trans.conflictingVersion con conflict = conflictingVersion con conflict := by
   unfold Generated.Trans.conflictingVersion conflictingVersion
@@ -90,7 +90,7 @@ theorem trans_conflictingVersion (con : Constraint) (conflict : Pkg) :
         · simp_all
   · simp [h1]
 
-/-- every call site hands `nil` as `compare` (the branch on it is dead code today) -/
+-- every call site hands `nil` as `compare` (the branch on it is dead code today)
 theorem tie_comparatorCallSites : Generated.comparatorCompareArgs = ["nil", "nil", "nil"] := by decide
 
 /-- the statement is about non-trivial values: a preferred pin beats a higher version -/
